@@ -36,7 +36,9 @@ func c05pad(size int) string {
 
 var c05alphabet = []c05sym{
 	{name: "message", wire: func(n, sz int) string {
-		return fmt.Sprintf("<message from='peer@example.org/x' id='m%d' type='chat'><body>%s &lt;%d&gt;</body></message>", n, c05pad(sz), n)
+		// with foreign content whose element names are those of HTML void elements and have content of their own (an
+		// Atom entry, a bookmark): a decoder set up leniently, for HTML, reads these differently
+		return fmt.Sprintf("<message from='peer@example.org/x' id='m%d' type='chat'><entry xmlns='http://www.w3.org/2005/Atom'><link rel='alternate'>http://example.org/%d</link><meta><br>deep</br></meta></entry><body>%s &lt;%d&gt;</body></message>", n, n, c05pad(sz), n)
 	}, routed: func(n int) string { return fmt.Sprintf("message:m%d", n) }},
 	{name: "presence", wire: func(n, sz int) string {
 		return fmt.Sprintf("<presence from='peer@example.org/x' id='p%d'><status>%s</status></presence>", n, c05pad(sz))
@@ -45,7 +47,7 @@ var c05alphabet = []c05sym{
 		return fmt.Sprintf("<iq from='example.org' id='g%d' type='get'><query xmlns='urn:unknown:%s'/></iq>", n, c05pad(sz%1000))
 	}, routed: func(n int) string { return fmt.Sprintf("iq:g%d:get", n) }},
 	{name: "iq-set", wire: func(n, sz int) string {
-		return fmt.Sprintf("<iq from='example.org' id='s%d' type='set'><query xmlns='jabber:iq:roster'><item jid='a@b'/></query></iq>", n)
+		return fmt.Sprintf("<iq from='example.org' id='s%d' type='set'><query xmlns='jabber:iq:roster'><item jid='a@b'><group>Friends</group><img xmlns='urn:example:avatar'>aGk=</img></item></query></iq>", n)
 	}, routed: func(n int) string { return fmt.Sprintf("iq:s%d:set", n) }},
 	{name: "iq-result", wire: func(n, sz int) string { return fmt.Sprintf("<iq from='example.org' id='r%d' type='result'/>", n) },
 		routed: func(n int) string { return fmt.Sprintf("iq:r%d:result", n) }},
